@@ -31,6 +31,26 @@ def random_ops(rnd, n):
     return out
 
 
+def _flip_item(ev):
+    for i, x in enumerate(ev):
+        if x.get('e') == 'op' and x.get('op') == 'next' and x['res'].get('r') == 'item':
+            ev[i] = dict(x, res=dict(x['res'], status=(x['res']['status'] % 2) + 1))
+            return ev
+    return ev
+
+
+def _drop_watch(ev):
+    """Remove a successful watch whose stream is polled later in the same run."""
+    for i, x in enumerate(ev):
+        if x.get('e') == 'op' and x.get('op') == 'watch' and x['res'].get('r') == 'subscribed':
+            for y in ev[i + 1:]:
+                if y.get('e') == 'reset':
+                    break
+                if y.get('e') == 'op' and y.get('op') == 'next' and y.get('w') == x.get('w') and y['res'].get('r') == 'item':
+                    return ev[:i] + ev[i + 1:]
+    return ev
+
+
 def check(prop, tier, seed):
     t0 = time.time()
     core.build_harness()
@@ -62,11 +82,16 @@ def check(prop, tier, seed):
     stims += random_ops(random.Random(seed), 3000 if tier == 'thorough' else 500)
     ev, path = simple.run_lab('health', stims, tag, 'ops')
     simple.validate(prop, 'Trace_Health', verdict, ev, path, 'ops', cov, clause_filter=lambda c: c.startswith('C18.') or c in ('NoPanic', 'NoHang'))
+    # Mechanism-level binding: every recorded operation with its result is the corresponding action of Health.tla
+    runs = [r for r in core.split_runs(ev) if not any(e.get('e') == 'end' and e.get('outcome') != 'ok' for e in r)]
+    cov['mechanism_trace'] = core.mech_validate(verdict, runs, 'Trace_HealthMech', 'Trace_HealthMech.cfg', tag, 'ops', 'Health.tla',
+                                                (('flip_item', _flip_item), ('drop_watch', _drop_watch)))
+    cov['mechanism_drift'] = f'{cov["mechanism_trace"]["runs_rejected"]} runs are not behaviours of the Mechanism model'
     cov['samples'].append({'family': 'ops', 'stimulus': simple.sample_of(stims)})
     return simple.finish(prop, tier, seed, verdict, cov, mc, t0,
                          ['operations are applied at quiescent points of a single-threaded runtime (the multi-threaded driver of the design is not built)',
                           'the first item of a watch stream may be the status current at subscription or any newer one (the stream reads at first poll)'],
-                         'tlc MC_Health*.cfg, Gen_Health.cfg (-simulate); vh health; tlc Trace_Health.cfg')
+                         'tlc MC_Health*.cfg, Gen_Health.cfg (-simulate); vh health; tlc Trace_Health.cfg; tlc Trace_HealthMech.cfg')
 
 
 def replay(prop, path):
